@@ -76,13 +76,31 @@ impl Prop for C02 {
     }
 
     fn judge(&self, sc: &Scenario, mut st: Option<&mut Stats>) -> Option<Violation> {
+        // The gate is judged in all three builds: the no-alloc build has a second copy of it on
+        // the path for sentences whose payload does not fit (reject_oversized), and feature-gated
+        // code may sit in front of either. Reach probes and coverage are counted once (std).
+        for build in Build::ALL {
+            let v = if build == Build::Std { judge_build(build, sc, st.as_deref_mut()) } else { judge_build(build, sc, None) };
+            if v.is_some() {
+                return v;
+            }
+        }
+        if let Some(st) = st.as_deref_mut() {
+            st.probe("gate judged on the std, alloc and no-alloc builds");
+        }
+        None
+    }
+}
+
+fn judge_build(build: Build, sc: &Scenario, mut st: Option<&mut Stats>) -> Option<Violation> {
+    {
         let nn = sc.nodes.max(1);
         let mut abs: Vec<AbsNode> = vec![AbsNode::default(); nn];
         let mut result: Option<Violation> = None;
         let abs_ref = std::cell::RefCell::new(&mut abs);
         let st_ref = std::cell::RefCell::new(&mut st);
         run_lines(
-            Build::Std,
+            build,
             sc,
             |i, l, out, _node| {
                 let node = l.node.min(nn - 1);
@@ -97,7 +115,7 @@ impl Prop for C02 {
                     prop: "C02".into(),
                     clause: clause.into(),
                     at: i,
-                    build: "std".into(),
+                    build: build.name().into(),
                     detail: format!("{} — line {:?}, outcome {}", detail, crate::json::show(&l.bytes), out.brief()),
                     site: clause.into(),
                 };
@@ -179,7 +197,10 @@ impl Prop for C02 {
                             return false;
                         }
                     }
-                    if l.form_ok && v <= 0xff && lx.fields.len() == 7 && v != x as u32 {
+                    // (no-alloc build: a sentence whose payload exceeds the fixed 384-byte buffer may
+                    // be rejected for capacity whatever its checksum - C18's carve-out, not judged)
+                    let over_capacity = build == Build::None && lx.field(&l.bytes, 5).map_or(false, |p| p.len() > 384);
+                    if l.form_ok && v <= 0xff && lx.fields.len() == 7 && v != x as u32 && !over_capacity {
                         if let Some(st) = stg.as_deref_mut() {
                             st.judged += 1;
                             st.probe("well-formed line with wrong checksum (ground truth) judged");
